@@ -185,6 +185,11 @@ func genRules(t *rapid.T, tier string) (*World, any) {
 			content = "[ ]get" + pick(t, []string{"", "[0-9]"}, "lb1") + "\n[ ]post\n"
 			feat["expression-starts-with-blank"] = true
 		}
+		if chance(t, 6, "id-in-expression") {
+			// the expression itself contains what looks like an id action
+			content = "sess;id:7[0-9]+\nplain\n"
+			feat["expression-contains-id-action-text"] = true
+		}
 		if chance(t, 5, "bom") {
 			content = "\ufeff" + content // a byte order mark means the same to generate, update and compare
 			feat["byte-order-mark"] = true
